@@ -96,9 +96,56 @@ func Soup(r *rand.Rand, maxTok int) []byte {
 var attrNames = []string{"class", "id", "title", "lang", "k", "data-x", "style", "onclick", "width", "Class", "cLaSs", "a.b", "a:b", "_x"}
 var attrValues = []string{"v", "a", "note", "1", "-1.5", "1e3", "true", "false", "null", "\"q\"", "\"a b\"", "'s'", "\"a\\\"b\"", "\"\"", "[1,2]", "[\"a\",b]", "{a=1}", "x<y", "&amp;", "é"}
 
+// allowedAttrNames are names goldmark's attribute allow-lists accept (global and per element).
+var allowedAttrNames = strings.Split("accesskey,autocapitalize,autofocus,class,contenteditable,dir,draggable,enterkeyhint,hidden,id,inert,inputmode,is,itemid,itemprop,itemref,itemscope,itemtype,lang,part,role,slot,spellcheck,style,tabindex,title,translate,"+
+	"cite,start,reversed,type,value,align,color,noshade,size,width,download,hreflang,media,ping,referrerpolicy,rel,shape,target,border,crossorigin,decoding,height,importance,intrinsicsize,ismap,loading,sizes,srcset,usemap,"+
+	"bgcolor,cellpadding,cellspacing,frame,rules,summary,char,charoff,valign,abbr,axis,colspan,headers,rowspan,scope", ",")
+
+// HashTwins returns byte strings of the same length and the same djb2 hash (h*33+c, the hash of util.BytesFilter) as
+// name: one byte raised by d and the next lowered by 33*d.  ok filters the bytes allowed in a twin (nil: any byte).
+// Keys of an allow-list that are told apart only by their hash are the hostile input of a hashed set.
+func HashTwins(name []byte, ok func(pos int, c byte) bool) [][]byte {
+	var out [][]byte
+	for i := 0; i+1 < len(name); i++ {
+		for _, d := range []int{1, -1, 2, -2, 3, -3} {
+			a, b := int(name[i])+d, int(name[i+1])-33*d
+			if a < 0 || a > 255 || b < 0 || b > 255 {
+				continue
+			}
+			if ok != nil && (!ok(i, byte(a)) || !ok(i+1, byte(b))) {
+				continue
+			}
+			t := append([]byte(nil), name...)
+			t[i], t[i+1] = byte(a), byte(b)
+			out = append(out, t)
+		}
+	}
+	return out
+}
+
+// attrTwinNames: valid attribute names that collide with an allowed name.
+var attrTwinNames = func() []string {
+	var out []string
+	nameChar := func(pos int, c byte) bool {
+		if c >= 'a' && c <= 'z' || c >= 'A' && c <= 'Z' || c == '_' || c == ':' {
+			return true
+		}
+		return pos > 0 && (c >= '0' && c <= '9' || c == '.' || c == '-')
+	}
+	for _, n := range allowedAttrNames {
+		for _, t := range HashTwins([]byte(n), nameChar) {
+			out = append(out, string(t))
+		}
+	}
+	return out
+}()
+
 // AttrBlock returns a random attribute block such as ` {#i .c class=a .d k="v"}`: every combination and order of the
 // shorthand (.class, #id) and key=value forms (unquoted, double-quoted, single-quoted, numbers, arrays, nested).
-func AttrBlock(r *rand.Rand) []byte {
+func AttrBlock(r *rand.Rand) []byte { return AttrBlockWith(r, 4) }
+
+// AttrBlockWith is AttrBlock with a look-alike name (a hash twin of an allowed name) in one of twinOdds named attributes.
+func AttrBlockWith(r *rand.Rand, twinOdds int) []byte {
 	var b []byte
 	if r.Intn(2) == 0 {
 		b = append(b, ' ')
@@ -111,7 +158,11 @@ func AttrBlock(r *rand.Rand) []byte {
 		case 1:
 			b = append(b, "#"+[]string{"i", "main", "a-b", "x1"}[r.Intn(4)]...)
 		default:
-			b = append(b, attrNames[r.Intn(len(attrNames))]...)
+			if r.Intn(twinOdds) == 0 && len(attrTwinNames) > 0 {
+				b = append(b, attrTwinNames[r.Intn(len(attrTwinNames))]...)
+			} else {
+				b = append(b, attrNames[r.Intn(len(attrNames))]...)
+			}
 			b = append(b, '=')
 			b = append(b, attrValues[r.Intn(len(attrValues))]...)
 		}
